@@ -241,3 +241,36 @@ contract(
            "def svc(p=None):\n    seen.append(('svc', p))\n    return raw", "def iso(tags, p=None):\n    seen.append(('iso', tags is raw, p))\n    return ['ok']",
            "d._get_instance_attribute_list_service = svc", "d._isolate_user_tags = iso"],
     ensures=["result == ['ok']", "seen == [('svc', program), ('iso', True, program)]"], props=["C05"])
+
+# the attribute list asked for and the record layout parsed must agree on every firmware revision (external access: from v18 on)
+for _major in (17, 18, 19, 32):
+    _acc = _major >= 18
+    contract(
+        id=f"upload.paging.revision.{_major}", func=LD + "._get_instance_attribute_list_service", call="d._get_instance_attribute_list_service(None)",
+        params=dict(_entry_params(2), head=P.bytes(len=46)), requires=["spec.encap.le(head, 8, 4) == 0", "inst0 < inst1"],
+        setup=[f"d = {LD}('10.0.0.1')", f"d._info = {{'revision': {{'major': {_major}, 'minor': 1}}}}", "d._session = 5", "d._target_cid = b'abcd'",
+               "d._target_is_connected = True", "d._connection_opened = True",
+               f"t = spec.env.Transport([head + spec.logix.sub_reply(0x55, 0, spec.logix.symbol_entry({_args(0, _acc)}) + spec.logix.symbol_entry({_args(1, _acc)}))])",
+               "d._sock = t", "req = lambda k: spec.msgrouter.try_parse_request(spec.encap.try_parse_frame(t.sent[k])[3][3])"],
+        ensures=["result == [" + ", ".join(f"spec.logix.symbol_record({_args(i, _acc)})" for i in range(2)) + "]", "len(t.sent) == 1",
+                 "req(0)[2] == " + ("b'\\x07\\x00\\x01\\x00\\x02\\x00\\x03\\x00\\x05\\x00\\x06\\x00\\x08\\x00\\x0a\\x00'" if _acc else
+                                    "b'\\x06\\x00\\x01\\x00\\x02\\x00\\x03\\x00\\x05\\x00\\x06\\x00\\x08\\x00'")],
+        props=["C05"], max_paths=30000)
+# program scope, three pages: every request names the program, the symbol class and ONE instance (last instance seen + 1)
+_PE = lambda i: f"spec.logix.symbol_entry(inst{i}, 'tag{i}', 0xC4, 0, 0, 1 << 26, [0, 0, 0], 3)"
+_PR = lambda i: f"spec.logix.symbol_record(inst{i}, 'tag{i}', 0xC4, 0, 0, 1 << 26, [0, 0, 0], 3)"
+contract(
+    id="upload.paging.program", func=LD + "._get_instance_attribute_list_service", call="d._get_instance_attribute_list_service(program)",
+    bind={"program": ["'Main'", "'Program:Aux1'"]},
+    params={"inst0": P.int(0, 2**32 - 1), "inst1": P.int(0, 2**32 - 1), "inst2": P.int(0, 2**32 - 1), "head": P.bytes(len=46)},
+    requires=["spec.encap.le(head, 8, 4) == 0", "inst0 < inst1", "inst1 < inst2"],
+    setup=[f"d = {LD}('10.0.0.1')", "d._info = {'revision': {'major': 20, 'minor': 1}}", "d._session = 5", "d._target_cid = b'abcd'",
+           "d._target_is_connected = True", "d._connection_opened = True",
+           "t = spec.env.Transport([" + ", ".join(f"head + spec.logix.sub_reply(0x55, {6 if i < 2 else 0}, {_PE(i)})" for i in range(3)) + "])",
+           "d._sock = t", "full = program if program.startswith('Program:') else 'Program:' + program",
+           "req = lambda k: spec.msgrouter.try_parse_request(spec.encap.try_parse_frame(t.sent[k])[3][3])"],
+    ensures=["result == [" + ", ".join(_PR(i) for i in range(3)) + "]", "len(t.sent) == 3",
+             "req(0)[1] == [('symbol', full.encode()), ('logical', 'class_id', 0x6B), ('logical', 'instance_id', 0)]",
+             "req(1)[1] == [('symbol', full.encode()), ('logical', 'class_id', 0x6B), ('logical', 'instance_id', inst0 + 1)]",
+             "req(2)[1] == [('symbol', full.encode()), ('logical', 'class_id', 0x6B), ('logical', 'instance_id', inst1 + 1)]"],
+    props=["C05", "C09"], max_paths=30000)
